@@ -34,7 +34,7 @@ void harness(void)
 	for (i = 0; i < N; ++i) {
 		if (i < len) {
 			u8 c = s[i];
-			CHECK(out_tok[pre + i].kind == 'b', "safe_output writes bytes");
+			CHECK((out_tok[pre + i].meta & 0xff) == 'b', "safe_output writes bytes");
 			if (c >= 0x20 && c <= 0x7e) CHECK(out_tok[pre + i].value == c, "C18: printable bytes are written unchanged");
 			else CHECK(out_tok[pre + i].value == '?', "C18: control characters and bytes >= 0x7F are replaced by '?'");
 		}
